@@ -12,7 +12,7 @@ out = tempfile.mktemp(suffix=".junit.xml")
 env = dict(os.environ)
 env.pop("PIQUASSO_VERIF", None)
 cmd = ["/venv/bin/python", "-m", "pytest", "-ra", "-q", "-p", "no:cacheprovider", "--timeout=900",
-       "--continue-on-collection-errors", f"--junitxml={out}"]
+       "--continue-on-collection-errors", f"--junitxml={out}"] + (["-n", os.environ["SUITE_N"]] if os.environ.get("SUITE_N") else [])
 p = subprocess.run(cmd, cwd=repo, env=env, capture_output=True, text=True)
 passed = set()
 for tc in ET.parse(out).getroot().iter("testcase"):
